@@ -291,6 +291,8 @@ Proof.
   - rewrite EL. cbn. unfold get_loop in Hg. exact (upd_const _ (fun l => enq_loop l (TReg (e_next s) o)) _ _ _ Hg).
 Qed.
 
+Arguments upd : simpl never.
+
 Ltac same_counts :=
   intros; split; unfold nlive, npend; cbn [e_loops set_loops trigger trigger_ing set_ing set_r set_t set_cancel set_insd set_inall
      set_started set_alloc set_users set_workers set_next put_user new_worker];
@@ -331,7 +333,7 @@ Proof.
   intros k s c s' evs HI H. unfold wstep in H. step_cases H.
   all: try solve [by_same HI].
   all: eapply Inv_c_trigger_reg; [exact HI| |reflexivity|reflexivity|reflexivity|repeat constructor].
-  all: unfold loop_pclosed in *; destruct (get_loop s (w_loop w)); congruence.
+  all: congruence.
 Qed.
 
 Lemma ustep_conns : forall g s c s' evs, Inv_c s -> ustep g s c = Some (s', evs) -> Inv_c (push evs s').
